@@ -274,7 +274,13 @@ def run(tape):
     if arm == 0:
         return _arm_c(tape)
     if tape.draw(3, "arm") != 0:
-        return simulate(tape, CFG_A, check_a, nontrivial=lambda w, s, o: w._nt, check_on_cap=True)
+        def gen_a(t, cfg):
+            from worlds.engine import gen_spec
+            spec = gen_spec(t, cfg)
+            # Workflow(verbose=True) wraps the run adapters in the logging adapter: the outcome rules are the same
+            spec["verbose"] = t.chance(20, 100, "verbose?")
+            return spec
+        return simulate(tape, CFG_A, check_a, gen=gen_a, nontrivial=lambda w, s, o: w._nt, check_on_cap=True)
     from props import c12
 
     def gen_b(t, cfg):
